@@ -487,7 +487,7 @@ func (s *Session) sendMessage(msg storage.Message) {
 	}()
 	s.send(fmt.Sprintf("+OK %v bytes follows", msg.Size()))
 
-	scanner := bufio.NewScanner(reader)
+	scanner := newLineScanner(reader, msg.Size())
 	for scanner.Scan() {
 		line := scanner.Text()
 		// Lines starting with . must be prefixed with another .
@@ -506,6 +506,17 @@ func (s *Session) sendMessage(msg storage.Message) {
 	s.send(".")
 }
 
+// newLineScanner returns a line scanner for a message of the given size.  bufio.Scanner gives up
+// on lines longer than 64 KiB by default, which truncated such messages; no line can be longer
+// than the message itself.
+func newLineScanner(r io.Reader, size int64) *bufio.Scanner {
+	scanner := bufio.NewScanner(r)
+	if size+2 > bufio.MaxScanTokenSize {
+		scanner.Buffer(make([]byte, 0, 4096), int(size)+2)
+	}
+	return scanner
+}
+
 // Send the headers plus the top N lines to the client
 func (s *Session) sendMessageTop(msg storage.Message, lineCount int) {
 	// As in sendMessage, +OK is only sent once the message could be opened.
@@ -522,7 +533,7 @@ func (s *Session) sendMessageTop(msg storage.Message, lineCount int) {
 	}()
 	s.send("+OK Top of message follows")
 
-	scanner := bufio.NewScanner(reader)
+	scanner := newLineScanner(reader, msg.Size())
 	inBody := false
 	for scanner.Scan() {
 		line := scanner.Text()
